@@ -30,7 +30,6 @@ pub const NODE: &str = "/persist";
 
 /// One attachment of a remote.
 pub struct Session {
-    pub remote: usize,
     pub frames: Vec<Frame>,
 }
 
@@ -54,7 +53,8 @@ pub struct Obs {
     /// Mutating store operations of this incarnation: (ticket, op).
     pub log: Vec<(u64, StoreOp)>,
     pub id_requests: Vec<(u64, String)>,
-    pub store_reads: u64,
+    /// Mutating store calls that the store refused (fault injection): (ticket, op).
+    pub refused: Vec<(u64, StoreOp)>,
     pub sessions: Vec<Session>,
     pub lanes: Vec<LaneRec>,
     /// How `run_agent_with_store` ended (None: crashed / never finished).
@@ -152,7 +152,8 @@ impl Runner {
         live.writer.abort();
         live.watcher.abort();
         let frames = std::mem::take(&mut live.log.lock().frames);
-        self.sessions.push(Session { remote: r, frames });
+        let _ = r;
+        self.sessions.push(Session { frames });
     }
 
     fn send(&mut self, r: usize, kind: ReqKind, lane: &str) {
@@ -237,6 +238,7 @@ pub fn run_incarnation(plan: &Plan, base: &State, rng: &mut Rng) -> Obs {
     rt.block_on(async move {
         let n_lanes = plan2.lanes.len();
         let store = RecStore::from_state(base2.clone());
+        store.0.lock().fail_from = plan2.store_fails_from;
         let lane_recs: Vec<SharedLane> = (0..n_lanes).map(|_| Arc::new(Mutex::new(LaneRec::default()))).collect();
         let shared = Arc::new(AgentShared { lanes: lane_recs.clone(), returned: Mutex::new(None), init_error: Mutex::new(None) });
         let mut lane_tx = vec![];
@@ -361,14 +363,14 @@ pub fn run_incarnation(plan: &Plan, base: &State, rng: &mut Rng) -> Obs {
         let lanes: Vec<LaneRec> = lane_recs.iter().map(|l| l.lock().clone()).collect();
         let init_error = shared.init_error.lock().clone();
         let (final_state, log, id_requests) = store.snapshot();
-        let store_reads = store.0.lock().reads;
+        let refused = store.0.lock().refused.clone();
         Obs {
             plan: plan2,
             base: base2,
             final_state,
             log,
             id_requests,
-            store_reads,
+            refused,
             sessions: runner.sessions,
             lanes,
             agent_result,
